@@ -43,6 +43,40 @@ EXT_SUFFIX = ".cpython-312-x86_64-linux-gnu.so"
 # ---------------------------------------------------------------------------------------------------------------
 CWD_LINE = "@cwd:"      # "@cwd:3" in a case = the path of root directory 3 written relative to the current directory
 NS_DECL = "__path__ = __import__('pkgutil').extend_path(__path__, __name__)\n"
+# Realistic __init__.py texts of pkgutil / pkg_resources-style namespace packages: the declaration (in the spellings
+# finder._is_pkg_style_namespace recognises) is rarely the first thing in the file.  A node's ns value k >= 1 selects
+# NS_TEXTS[(k - 1) % len(NS_TEXTS)]; the model only sees "declares a namespace".
+_NS_FORMS = [
+    "__path__ = __import__('pkgutil').extend_path(__path__, __name__)\n",
+    '__path__ = __import__("pkgutil").extend_path(__path__, __name__)\n',
+    "__import__('pkg_resources').declare_namespace(__name__)\n",
+    '__import__("pkg_resources").declare_namespace(__name__)\n',
+]
+_NS_PREFIXES = [
+    "",
+    '"""A namespace package."""\n\n',
+    "# Copyright (c) the authors\n# Licensed under the ISC licence\n",
+    "# -*- coding: utf-8 -*-\n\n",
+    '"""Top-level namespace.\n\nSeveral distributions install into it.\n"""\nfrom __future__ import annotations\n\nimport sys\n\n',
+    "\n\n",
+    "try:\n    ",            # the setuptools template: try: __import__('pkg_resources').declare_namespace(__name__) except ImportError: ...
+]
+NS_TEXTS = []
+for _f in _NS_FORMS:
+    for _p in _NS_PREFIXES:
+        if _p.startswith("try:"):
+            NS_TEXTS.append(_p + _f + "except ImportError:\n    __path__ = __import__('pkgutil').extend_path(__path__, __name__)\n")
+        else:
+            NS_TEXTS.append(_p + _f + ("\nVERSION = '1'\n" if len(_p) % 2 else ""))
+# the oracle runs `python -S`: pkg_resources (setuptools) is not importable there; its declare_namespace is emulated with
+# pkgutil.extend_path (same portions, same order for the layouts generated here)
+PKG_RESOURCES_STUB = ("import sys, pkgutil\n\n\ndef declare_namespace(name):\n    module = sys.modules[name]\n"
+                      "    module.__path__ = pkgutil.extend_path(module.__path__, name)\n")
+
+
+def ns_text(k) -> str:
+    return NS_TEXTS[(int(k) - 1) % len(NS_TEXTS)]
+
 
 
 def _empty_pyc() -> bytes:
@@ -92,7 +126,7 @@ def materialise(case, base: Path):
                 elif name.endswith(".pyc"):
                     p.write_bytes(EMPTY_PYC)          # valid byte code of an empty module
                 else:
-                    p.write_text(NS_DECL if ns else "")
+                    p.write_text(ns_text(ns) if ns else "")
 
     for i, listing in case["dirs"]:
         rec(root_dir(base, i), listing)
@@ -355,6 +389,7 @@ def run_oracle(scratch: Path, jobs: list, tag="o"):
     scratch.mkdir(parents=True, exist_ok=True)
     script = scratch / "c14_oracle.py"
     script.write_text(ORACLE_SRC)
+    (scratch / "pkg_resources.py").write_text(PKG_RESOURCES_STUB)     # found through sys.path[0], the script's directory
     fin, fout = scratch / f"oracle_in_{tag}.json", scratch / f"oracle_out_{tag}.json"
     fin.write_text(json.dumps(jobs))
     env = {k: v for k, v in os.environ.items() if k not in ("PYTHONPATH",)}
@@ -398,7 +433,7 @@ def abstract_case(case):
     def node(name, x):
         if x[0] == "d":
             return ["d", [[n, node(n, y)] for n, y in x[1]]]
-        return ["f", x[1], abstract_pth_lines(x[2], ids) if name.endswith(".pth") else []]
+        return ["f", 1 if x[1] else 0, abstract_pth_lines(x[2], ids) if name.endswith(".pth") else []]
 
     return [[[i, [[n, node(n, x)] for n, x in l]] for i, l in case["dirs"]], case["search"], case["name"]]
 
@@ -491,7 +526,7 @@ def gen_init_files(rng, top_level: bool):
     elif r < 0.98:
         out = [["__init__.py", F()], ["__init__" + rng.choice([EXT_SUFFIX, ".pyc"]), F()]]
     else:
-        out = [["__init__.py", F(1 if top_level else 0)]]
+        out = [["__init__.py", F(rng.randint(1, len(NS_TEXTS)) if top_level else 0)]]
     return out
 
 
@@ -572,7 +607,7 @@ def gen_top_form(rng):
     if r < 0.86:
         return [[TOP, D(gen_dir(rng, 1, True, force_init=[["__init__.pyi", F()]]))]]
     if r < 0.89:
-        return [[TOP, D(gen_dir(rng, 1, True, force_init=[["__init__.py", F(1)]]))]]    # pkgutil-style namespace
+        return [[TOP, D(gen_dir(rng, 1, True, force_init=[["__init__.py", F(rng.randint(1, len(NS_TEXTS)))]]))]]    # pkgutil / pkg_resources-style namespace
     return []
 
 
@@ -1043,6 +1078,10 @@ def targeted_cases():
         mk([[["aa", D([["sub", D([["deep", D([["__init__.abi3.so", F()]])]])]])]], [["aa", D([["sub", D([["b.py", F()]])]])]]], [0, 1]),
         mk([[["aa", D([["__init__.py", F(1)], ["m.py", F()]])]], [["aa", D([["__init__.py", F(1)], ["n.py", F()]])]]], [0, 1]),   # pkgutil style
         mk([[["aa", D([["__init__.py", F(1)], ["m.py", F()]])]], [["aa", _pkg(["n.py", F()])]]], [0, 1]),                         # mixed
+        # realistic declaring __init__ files: docstring / licence header / imports before the declaration, both quote styles,
+        # the pkg_resources spelling, the try/except template
+        *[mk([[["aa", D([["__init__.py", F(k)], ["m.py", F()], ["sub", _pkg(["a.py", F()])]])]], [["aa", D([["__init__.py", F(k2)], ["n.py", F()]])]]], [0, 1])
+          for k, k2 in ((2, 2), (3, 10), (5, 16), (7, 21), (12, 26), (19, 5), (28, 1), (14, 23))],
         # which portion provides a regular sub-package is decided top-down over ALL portions
         mk([[["aa", D([["sub", D([["deep", _pkg(["a.py", F()])]])]])]], [["aa", D([["sub", _pkg(["deep", _pkg(["x.py", F()])], ["late.py", F()])]])]]], [0, 1]),
         mk([[["aa", D([["sub", D([["deep", _pkg(["a.py", F()])], ["e.py", F()]])]])]], [["aa", D([["sub", D([["deep", _pkg(["x.py", F()])], ["late.py", F()]])]])]]], [0, 1]),
@@ -1145,13 +1184,94 @@ def gen_ns_case(rng):
         if r < 0.10:
             inner.append(["__init__.py", F()])
         elif r < 0.16:
-            inner.append(["__init__.py", F(1)])
+            inner.append(["__init__.py", F(rng.randint(1, len(NS_TEXTS)))])
         listing = [[TOP, D(inner)]] if rng.random() < 0.9 else []
         if rng.random() < 0.1:
             listing.append([TOP + ".py", F()])
         rng.shuffle(listing)
         dirs.append([i, listing])
     return {"dirs": dirs, "search": list(range(n)), "name": TOP}
+
+
+# ---------------------------------------------------------------------------------------------------------------
+# Histories on ONE loader: several top-level packages of one layout loaded one after the other
+# ---------------------------------------------------------------------------------------------------------------
+MULTI_NAMES = ["aa", "bb", "cc"]
+
+
+def gen_multi_layout(rng):
+    """A layout with two or three top-level packages whose trees use the same folder names in different roles
+    (a folder without __init__ in one package, a regular sub-package of that name in another, a module of that name ...)."""
+    names = MULTI_NAMES[:rng.choice([2, 3, 3])]
+    nsearch = rng.choice([1, 1, 2])
+    dirs = []
+    for i in range(nsearch):
+        listing = []
+        for nm in names:
+            r = rng.random()
+            if r < 0.62:
+                listing.append([nm, D(gen_dir(rng, 1, True, force_init=[["__init__.py", F()]], rich=0.3))])
+            elif r < 0.80:
+                listing.append([nm, D(gen_dir(rng, 1, True, force_init=[], rich=0.3))])          # namespace portion
+            elif r < 0.88:
+                listing.append([nm + ".py", F()])
+        rng.shuffle(listing)
+        dirs.append([i, listing])
+    return {"dirs": dirs, "search": list(range(nsearch))}, names
+
+
+def impl_history(layout, base: Path, names):
+    """ONE GriffeLoader loads the names one after the other -> list of canonical trees."""
+    import griffe
+    order = order_map({**layout, "name": names[0]}, base)
+    out = []
+    try:
+        with listing_order(order), watchdog(40):
+            loader = griffe.GriffeLoader(search_paths=[root_dir(base, i) for i in layout["search"]], allow_inspection=False)
+            for nm in names:
+                try:
+                    top = loader.load(nm, try_relative_path=False)
+                    while top.parent is not None:
+                        top = top.parent
+                    out.append(["ok", tree_of(top, base)])
+                except ModuleNotFoundError:
+                    out.append(["notfound"])
+                except Exception as e:  # noqa: BLE001
+                    out.append(["err", type(e).__name__])
+    except Watchdog:
+        out += [["err", "Timeout"]] * (len(names) - len(out))
+    return out
+
+
+def history_stream(ctx, n_layouts, model, tag, stream="one-loader-history"):
+    """Each package of a layout goes through the ordinary checks (fresh loader vs model vs CPython); then the packages are
+    loaded with ONE loader in several orders, and every tree must be the fresh loader's tree."""
+    import itertools
+    for k in range(n_layouts):
+        layout, names = gen_multi_layout(ctx.rng)
+        cases = [{**layout, "name": nm} for nm in names]
+        scratch = ctx.scratch / f"{tag}{k}"
+        reps = evaluate(cases, scratch, model, ctx.rng, n_random=0, tag="h") if model is not None else evaluate_no_model(cases, scratch, ctx.rng)
+        if model is not None:
+            process(ctx, reps, stream)
+        else:
+            for rep in reps:
+                ctx.evaluations += 1
+                report_direct(ctx, rep, py_gaps(rep["case"]))
+        fresh = {nm: rep["perms"][0]["load"] for nm, rep in zip(names, reps)}
+        orders = list(itertools.permutations(names))
+        ctx.rng.shuffle(orders)
+        for order in orders[:ctx.budget(3, 6)]:
+            got = impl_history(layout, reps[0]["base"], list(order))
+            ctx.count("history_loads")
+            for pos, (nm, tree) in enumerate(zip(order, got)):
+                ctx.observe("history", f"position{pos}:" + tree[0])
+                if tree != fresh[nm]:
+                    ctx.property_failure({"case": {**layout, "name": nm}, "check": "loader-history", "loaded_in_order": list(order)},
+                                         {"package": nm, "position": pos, "with_one_loader": tree, "with_a_fresh_loader": fresh[nm]}, finding=None)
+        subprocess.run(["rm", "-rf", str(scratch)])
+        if model is None and ctx.prop_failures:
+            return
 
 
 # ---------------------------------------------------------------------------------------------------------------
@@ -1186,7 +1306,7 @@ RULE = ("targeted layouts (witnesses of all eleven findings, every precedence de
         "family (subsets of m.py/m.pyi/m.so/m.pyc/m/ with and without __init__, every permutation of the package listing); seeded random layouts over 1-3 search paths + .pth-added paths "
         "(regular/namespace/stub/pkgutil-style/module/compiled top-level forms, nested packages to depth 4, junk, __pycache__, dotted file names, dot-files, directories with dotted names at "
         "every level holding modules and sub-packages, .pth lines absolute / relative to the .pth file / relative to the cwd / comments / missing); seeded namespace-heavy layouts (2-3 portions "
-        "with overlapping sub-directories: about half of them have the F8/F3/F10 shapes in the raw scan). Each layout is run under its own, the sorted, the reversed and random listing orders, "
+        "with overlapping sub-directories: about half of them have the F8/F3/F10 shapes in the raw scan); pkgutil / pkg_resources-style namespace __init__ files with realistic text (docstring, licence header, coding cookie, imports before the declaration, both quote styles, the try/except template); layouts with 2-3 top-level packages sharing folder names in different roles, each checked on its own AND loaded with ONE GriffeLoader in several orders (every tree must be the fresh loader's). Each layout is run under its own, the sorted, the reversed and random listing orders, "
         "and loaded by up to 10 paths (top-level directories in and outside the search directories, __init__ files, nested directories and files, a missing path). "
         "non-trivial = at least 4 file-system nodes; distinct by canonical layout")
 TRUSTED = ["translator harness/translate/c14_tables.py (constants and loop shapes of finder.py / loader.py -> coq/Gen/C14_tables.v; the rest of the model is hand-written and tied by differential runs)",
@@ -1199,7 +1319,10 @@ ASSUMPTIONS = ["allow_inspection=False; files are empty (or a pkgutil namespace 
                "pkgutil-style namespaces are compared only when every portion declares the namespace",
                "entries named like modules have the expected type (no directory called x.py, no extension-less file called like the package)",
                "a file called exactly '.pth' is outside the domain (site of CPython 3.12.1 reads it, pathlib gives it no suffix; newer CPythons skip hidden .pth files): generated, counted as scope",
-               "the portions of a namespace package are distinct directories; search directories are not nested in one another"]
+               "the portions of a namespace package are distinct directories; search directories are not nested in one another",
+               "the oracle runs python -S without setuptools: pkg_resources.declare_namespace is emulated there by pkgutil.extend_path (a stub module next to the oracle script)",
+               "pkg-style namespace declarations are generated in the spellings finder._is_pkg_style_namespace recognises (__import__('pkgutil'/'pkg_resources')...); "
+               "the `from pkgutil import extend_path` / `pkgutil.extend_path` / `pkg_resources.declare_namespace` spellings are NOT recognised by /repo (fix 8b9a050 proposed in build/fix-C14) and not generated yet"]
 
 FINDING_KINDS = ("paths", "order-find", "order-tree", "find", "load-raises", "loaded-not-importable", "walked-not-loaded",
                  "classification", "name-vs-path", "find-raises")
@@ -1368,6 +1491,7 @@ def explore(ctx):
         process(ctx, evaluate(cases, ctx.scratch / f"ns{k}", model, ctx.rng, n_random=ctx.budget(1, 2), tag="n"), "random-namespace")
         subprocess.run(["rm", "-rf", str(ctx.scratch / f"ns{k}")])
         k += 1
+    history_stream(ctx, ctx.budget(40, 400), model, "hist")
     if not ctx.quick:
         sample = []
         for c in targeted_cases()[:20]:
@@ -1384,6 +1508,9 @@ def search(ctx):
     batches = [targeted_cases(), clash_family(2)]
     for _ in range(4):
         batches.append([gen_case(ctx.rng) for _ in range(150)] + [gen_ns_case(ctx.rng) for _ in range(100)])
+    history_stream(ctx, 60, None, "shist")
+    if ctx.prop_failures:
+        return
     for k, cases in enumerate(batches):
         reps = evaluate_no_model(cases, ctx.scratch / f"search{k}", ctx.rng)
         for rep in reps:
@@ -1426,6 +1553,15 @@ def replay(ctx, data):
             print(f"model [{p['label']}] load:", json.dumps(p["m_load"]))
     print("cpython:", json.dumps({k: rep["oracle"].get(k) for k in ("paths", "find", "walk", "queries")}))
     print("gaps   :", rep["m_gaps"] if model else py_gaps(case))
+    if isinstance(fi, dict) and fi.get("loaded_in_order"):
+        names = fi["loaded_in_order"]
+        print("one loader, packages loaded in the order", names)
+        for nm, tree in zip(names, impl_history(case, rep["base"], names)):
+            fresh = impl_load({**case, "name": nm}, rep["base"], order_map({**case, "name": nm}, rep["base"]))
+            print(f"  {nm}: {'same as a fresh loader' if tree == fresh else 'DIFFERS from a fresh loader'}")
+            if tree != fresh:
+                print("    one loader  :", json.dumps(tree)[:1500])
+                print("    fresh loader:", json.dumps(fresh)[:1500])
     fails, _ = direct_checks(rep)
     for k, d in fails:
         print("FAIL", k, json.dumps(d)[:600])
